@@ -34,10 +34,18 @@ def module(crate):
     return _modules[crate]
 
 
-def executor(mods, **kw):
+def executor(mods, atomic=None, **kw):
+    """atomic: regexes of (short) function names the lemma treats as opaque calls; when given, every *other*
+    first-party function found in the dumps is inlined - so that extracting a private helper out of (or inlining
+    one into) an anchored function does not change what a lemma sees."""
     if not isinstance(mods, (list, tuple)):
         mods = [mods]
-    return ms.Executor(list(mods), enums=enums(), **kw)
+    ex = ms.Executor(list(mods), enums=enums(), **kw)
+    if atomic is not None:
+        import re as _re
+        rs = [_re.compile(a) for a in atomic]
+        ex.inline_pred = lambda f: not any(r.search(f.short) or r.search(f.name) for r in rs)
+    return ex     # default: helpers that did not exist on the pinned tree are inlined (mirsym.default_helper_pred)
 
 
 def func_ref(f, crate):
